@@ -70,6 +70,18 @@ def step (s0 : DS) (line : String) : DS × String :=
   match (line.splitOn " ").filter (· ≠ "") with
   | ["res", rs] => ({ s with rs := (rs.splitOn ",").map parseRes, phantom := [] }, "ok")
   | ["phantom", h] => ({ s with phantom := hexBytes h }, "ok")
+  -- a real swamp (pointer events on): the model is the key/value Spec itself
+  | ["sw", "new"] => ({ s with spec := [] }, "ok")
+  | ["sw", "save", k, v] => ({ s with spec := Index.put s.spec (nat k) (nat v) }, "ok")
+  | ["sw", "del", k] => ({ s with spec := Index.del s.spec (nat k) }, "ok")
+  | ["sw", "load", _] => (s, "ok " ++ showIndex s.spec)
+  | "sw" :: _ => (s, "ok")
+  -- what a reader sees right now, the writer staying open
+  | ["act", "probe", _] =>
+    let st := recover s.cfg s.mdisk
+    -- Spec: a flush boundary that holds everything acknowledged so far
+    let ok := (List.range (s.wr.length + 1 - s.dur)).any fun d => sameIndex (Index.replay [] (s.wr.take (s.dur + d))) st
+    (s, "ok " ++ showIndex st ++ (if ok then "" else "\t#F:" ++ s.firstFault.getD "C25-unexplained-loss"))
   | ["act", "w", items] =>
     let its := parseItems items
     let out := cWriteF s.cfg s.fc s.mk' ⟨s.cs, s.mdisk, s.rs⟩ its
@@ -78,11 +90,11 @@ def step (s0 : DS) (line : String) : DS × String :=
   | ["act", "sync", _] =>
     let out := cSyncF s.cfg s.fc s.mk' ⟨s.cs, s.mdisk, s.rs⟩
     let s1 := pushR s out.ops
-    ({ s1 with cs := out.st.cs, rs := [] }, if out.failed then "ok err" else "ok ok")
+    ({ s1 with cs := out.st.cs, rs := [], dur := if out.failed then s.dur else s.wr.length }, if out.failed then "ok err" else "ok ok")
   | ["act", "close", _] =>
     let out := cCloseF s.cfg s.fc s.mk' ⟨s.cs, s.mdisk, s.rs⟩
     let s1 := pushR s out.ops
-    ({ s1 with cs := out.st.cs, rs := [] }, if out.failed then "ok err" else "ok ok")
+    ({ s1 with cs := out.st.cs, rs := [], dur := if out.failed then s.dur else s.wr.length }, if out.failed then "ok err" else "ok ok")
   | ["act", "compact", ep, order] =>
     let e := epOf ep
     let out := cCompactF s.cfg s.fc s.mk' ⟨s.cs, s.mdisk, s.rs⟩ e (parseOrder order) (order == "skip")
@@ -91,7 +103,7 @@ def step (s0 : DS) (line : String) : DS × String :=
   | _ => Driver.BStor.step hooks s0 line
 
 def cfgOfArgs (kv : List (String × String)) : Cfg :=
-  { r := ⟨boolArg kv "shortHeaderIsEOF", boolArg kv "tornDataIsEOF", false⟩,
+  { r := ⟨boolArg kv "shortHeaderIsEOF", boolArg kv "tornDataIsEOF", false, boolArg kv "zeroTailIsEOF"⟩,
     syncFsyncs := boolArg kv "syncFsyncs", closeFsyncs := boolArg kv "closeFsyncs",
     truncatesTornTail := boolArg kv "truncatesTornTail",
     loadCleansTemp := true, rmTempLocked := true, rmTempFromIndex := true, rmTempCompactor := true }
@@ -99,7 +111,8 @@ def cfgOfArgs (kv : List (String × String)) : Cfg :=
 def run (args : List String) : IO UInt32 := do
   let kv := parseArgs args
   let fc : FCfg := ⟨boolArg kv "clearsBufferBeforeWrite", boolArg kv "rollsBackFailedBlock", boolArg kv "restoresOffsetAfterHeader",
-    boolArg kv "splitsOversizedBuffer"⟩
+    boolArg kv "splitsOversizedBuffer", !(kv.lookup "writeEntryReportsFlushError" == some "no"),
+    boolArg kv "closeKeepsFileOnError"⟩
   lineLoop step { cfg := cfgOfArgs kv, fc := fc, probe := false }
   return 0
 
